@@ -346,20 +346,26 @@ Qed.
 
 (** ** Two substitutions at distance [d <= 84] (what one changed hrp character causes) *)
 
-Definition two_err_table : bool :=
-  forallb (fun e1 => forallb (fun d => 32 <=? lin_iter (S (Z.to_nat d)) (e1 + 1)) (zrange 84)) (zrange 31).
+Definition te_inner (e1 d : Z) : bool := 32 <=? lin_iter (S (Z.to_nat d)) (e1 + 1).
+Definition te_row (e1 : Z) : bool := forallb (te_inner e1) (zrange 84).
 
-Lemma two_err_table_ok : two_err_table = true.
+Lemma two_err_table_ok : forallb te_row (zrange 31) = true.
 Proof. vm_compute. reflexivity. Qed.
+
+Lemma te_row_unfold e1 : te_row e1 = forallb (te_inner e1) (zrange 84).
+Proof. reflexivity. Qed.
 
 Lemma lin_iter_snoc n d : lin_iter (S n) d = lin (lin_iter n d).
 Proof. revert d. induction n as [|n IH]; intros d; [reflexivity|]. cbn [lin_iter] in *. apply IH. Qed.
 
 Lemma two_err e1 d : 1 <= e1 < 32 -> (1 <= d <= 84)%nat -> 32 <= lin_iter d e1.
 Proof.
-  intros He Hd. pose proof two_err_table_ok as Ht. unfold two_err_table in Ht.
-  pose proof (forallb_zrange 31 _ Ht (e1 - 1) ltac:(lia)) as Hx. cbv beta in Hx.
-  pose proof (forallb_zrange 84 _ Hx (Z.of_nat d - 1) ltac:(lia)) as Hy. cbv beta in Hy.
+  intros He Hd.
+  assert (Hx : te_row (e1 - 1) = true).
+  { apply (forallb_zrange 31 te_row two_err_table_ok). lia. }
+  assert (Hy : te_inner (e1 - 1) (Z.of_nat d - 1) = true).
+  { rewrite te_row_unfold in Hx. apply (forallb_zrange 84 (te_inner (e1 - 1)) Hx). lia. }
+  unfold te_inner in Hy.
   replace (e1 - 1 + 1) with e1 in Hy by lia.
   replace (S (Z.to_nat (Z.of_nat d - 1))) with d in Hy by lia. lia.
 Qed.
@@ -456,5 +462,94 @@ Proof.
     revert Heq. apply polymod_double_substitution; try assumption.
     + unfold fes_in. apply Forall_app; split; [exact Hhs|]. constructor; [apply fe_in_0 | exact Hlp].
     + unfold fes_in. apply Forall_app; split; [exact Hls | exact Hdata].
-    + rewrite app_length in *. cbn [List.length] in *. rewrite !map_length. rewrite app_length in Hlen. cbn [List.length] in Hlen. lia.
+    + rewrite !app_length in *. cbn [List.length] in *. rewrite !map_length. lia.
+Qed.
+
+(** * Checksum creation followed by verification *)
+
+Lemma step_small r e : 0 <= r < 33554432 -> fe_in e -> polymod_step r e = r * 32 + e.
+Proof.
+  intros Hr He. rewrite step_arith; [|unfold st_ok; lia|exact He].
+  rewrite (Z.mod_small r) by lia. rewrite (Z.div_small r) by lia.
+  change (gen_sel 0) with 0. apply Z.lxor_0_r.
+Qed.
+
+Definition pack6 (s5 s4 s3 s2 s1 s0 : Z) : Z :=
+  ((((s5 * 32 + s4) * 32 + s3) * 32 + s2) * 32 + s1) * 32 + s0.
+
+Lemma polymod_from_0_six s5 s4 s3 s2 s1 s0 :
+  fe_in s5 -> fe_in s4 -> fe_in s3 -> fe_in s2 -> fe_in s1 -> fe_in s0 ->
+  polymod_from 0 [s5; s4; s3; s2; s1; s0] = pack6 s5 s4 s3 s2 s1 s0.
+Proof.
+  intros H5 H4 H3 H2 H1 H0. unfold polymod_from, pack6. cbn [fold_left]. unfold fe_in in *.
+  rewrite (step_small 0 s5) by (unfold fe_in; lia). rewrite Z.mul_0_l, Z.add_0_l.
+  rewrite (step_small s5 s4) by (unfold fe_in; lia).
+  rewrite (step_small _ s3) by (unfold fe_in; lia).
+  rewrite (step_small _ s2) by (unfold fe_in; lia).
+  rewrite (step_small _ s1) by (unfold fe_in; lia).
+  rewrite (step_small _ s0) by (unfold fe_in; lia).
+  reflexivity.
+Qed.
+
+Lemma polymod_from_six_split r s5 s4 s3 s2 s1 s0 : st_ok r ->
+  fe_in s5 -> fe_in s4 -> fe_in s3 -> fe_in s2 -> fe_in s1 -> fe_in s0 ->
+  polymod_from r [s5; s4; s3; s2; s1; s0] =
+  Z.lxor (polymod_from r [0; 0; 0; 0; 0; 0]) (pack6 s5 s4 s3 s2 s1 s0).
+Proof.
+  intros Hr H5 H4 H3 H2 H1 H0.
+  rewrite <- polymod_from_0_six by assumption.
+  unfold polymod_from. cbn [fold_left].
+  pose proof fe_in_0 as Z0. assert (S0 : st_ok 0) by (unfold st_ok; lia).
+  repeat (rewrite <- step_lin; [| repeat apply step_ok; assumption | repeat apply step_ok; assumption | assumption | assumption]).
+  rewrite Z.lxor_0_r, !Z.lxor_0_l. reflexivity.
+Qed.
+
+Lemma unpack_pack r : st_ok r ->
+  pack6 (unpack r 5) (unpack r 4) (unpack r 3) (unpack r 2) (unpack r 1) (unpack r 0) = r.
+Proof.
+  unfold st_ok, pack6, unpack. intros Hr.
+  change 31 with (Z.ones 5). rewrite !Z.land_ones by lia. rewrite !Z.shiftr_div_pow2 by lia.
+  change (2 ^ (5 * 5)) with 33554432. change (2 ^ (4 * 5)) with 1048576. change (2 ^ (3 * 5)) with 32768.
+  change (2 ^ (2 * 5)) with 1024. change (2 ^ (1 * 5)) with 32. change (2 ^ (0 * 5)) with 1. change (2 ^ 5) with 32.
+  lia.
+Qed.
+
+Lemma unpack_in r n : 0 <= r -> 0 <= n -> fe_in (unpack r n).
+Proof.
+  intros Hr Hn. unfold unpack, fe_in. change 31 with (Z.ones 5). rewrite Z.land_ones by lia.
+  change (2 ^ 5) with 32. pose proof (Z.mod_pos_bound (Z.shiftr r (n * 5)) 32). lia.
+Qed.
+
+Lemma create_checksum_in h data : hrp_chars_ok h = true -> forallb fe_ok data = true ->
+  forallb fe_ok (create_checksum h data) = true /\ List.length (create_checksum h data) = 6%nat.
+Proof.
+  intros Hh Hd. split; [|reflexivity].
+  apply forallb_fes_in. unfold create_checksum. cbv zeta.
+  set (r := polymod_from _ target_fes).
+  assert (Hr : st_ok r).
+  { unfold r. apply polymod_from_ok.
+    - apply polymod_from_ok; [apply st_ok_1|]. apply Forall_app. split; [apply hrp_expand_in, Hh | apply forallb_fes_in, Hd].
+    - apply forallb_fes_in. reflexivity. }
+  unfold fes_in. cbn [map]. unfold st_ok in Hr. repeat constructor; apply unpack_in; lia.
+Qed.
+
+Lemma checksum_roundtrip h data : hrp_chars_ok h = true -> forallb fe_ok data = true ->
+  verify_checksum h (data ++ create_checksum h data) = true.
+Proof.
+  intros Hh Hd. unfold verify_checksum, create_checksum. cbv zeta.
+  apply Z.eqb_eq. unfold polymod at 1. rewrite app_assoc, polymod_from_app.
+  fold (polymod (hrp_expand h ++ data)).
+  set (s := polymod (hrp_expand h ++ data)).
+  assert (Hs : st_ok s).
+  { unfold s, polymod. apply polymod_from_ok; [apply st_ok_1|]. apply Forall_app. split; [apply hrp_expand_in, Hh | apply forallb_fes_in, Hd]. }
+  change target_fes with [0; 0; 0; 0; 0; 1].
+  set (r := polymod_from s [0; 0; 0; 0; 0; 1]).
+  assert (Hr : st_ok r).
+  { unfold r. apply polymod_from_ok; [exact Hs|]. apply forallb_fes_in. reflexivity. }
+  cbn [map].
+  rewrite polymod_from_six_split; try exact Hs; try (apply unpack_in; unfold st_ok in Hr; lia).
+  rewrite unpack_pack by exact Hr.
+  unfold r. rewrite (polymod_from_six_split s 0 0 0 0 0 1); try exact Hs; try apply fe_in_0; [|unfold fe_in; lia].
+  change (pack6 0 0 0 0 0 1) with 1.
+  rewrite <- Z.lxor_assoc, Z.lxor_nilpotent, Z.lxor_0_l. reflexivity.
 Qed.
